@@ -18,6 +18,16 @@ static void g2_base(void *this_p, void *src_p, void *i_p); static void g2_head(v
 #define VERIF_LOOP_HEAD_INIT_for_2econd do { g2_base(m_this_2eaddr, m_source_node_2eaddr, &m_i); VERIF_LOOP_HAVOC_INIT_for_2econd; g2_head(m_this_2eaddr, m_source_node_2eaddr, &m_i); } while (0)
 #define VERIF_LOOP_BACK_INIT_for_2econd g2_back(m_this_2eaddr, m_source_node_2eaddr, &m_i)
 #endif
+#if FROM == 3 && TO == 2
+static void t1_base(void *this_p, void *src_p, void *i_p, void *n_p); static void t1_head(void *this_p, void *src_p, void *i_p, void *n_p); static void t1_back(void *this_p, void *src_p, void *i_p, void *n_p);
+#define VERIF_LOOP_HEAD_INIT_while_2econd do { t1_base(m_this_2eaddr, m_source_node_2eaddr, &m_i, &m_next_child); VERIF_LOOP_HAVOC_INIT_while_2econd; t1_head(m_this_2eaddr, m_source_node_2eaddr, &m_i, &m_next_child); } while (0)
+#define VERIF_LOOP_BACK_INIT_while_2econd t1_back(m_this_2eaddr, m_source_node_2eaddr, &m_i, &m_next_child)
+#endif
+#if FROM == 4 && TO == 3
+static void s1_base(void *this_p, void *src_p, void *i_p, void *n_p); static void s1_head(void *this_p, void *src_p, void *i_p, void *n_p); static void s1_back(void *this_p, void *src_p, void *i_p, void *n_p);
+#define VERIF_LOOP_HEAD_INIT_for_2econd do { s1_base(m_this_2eaddr, m_source_node_2eaddr, &m_child_i, &m_next_child); VERIF_LOOP_HAVOC_INIT_for_2econd; s1_head(m_this_2eaddr, m_source_node_2eaddr, &m_child_i, &m_next_child); } while (0)
+#define VERIF_LOOP_BACK_INIT_for_2econd s1_back(m_this_2eaddr, m_source_node_2eaddr, &m_child_i, &m_next_child)
+#endif
 #include "x_types.h"
 #include "x_body.h"
 static unsigned G_frees;
@@ -34,10 +44,10 @@ static uint8_t *mk_src(void) {
   SRC_T *t = malloc(sizeof(SRC_T)); __CPROVER_assume(t != 0); uint8_t *o = (uint8_t *)t;
   nv_load(&VS, o, FROM); __CPROVER_assume(nv_wf_global(&VS));
   Q = nondet_u8(); __CPROVER_assume(nv_wf_at(&VS, Q));
-#if FROM == 3 && TO != 4      /* the growth to N256 uses the counting (rank) form of the N48 invariant instead: rk_define() */
+#if FROM == 3 && TO != 4 && TO != 2      /* the routines with loop invariants use the counting (rank) form of the N48 invariant instead: rk_define() */
   for (int j = 0; j < 48; j++) { G_owner[j] = nondet_u8(); G_used[j] = nondet_bool(); } __CPROVER_assume(nv_wf_48_full(&VS, G_owner, G_used));
 #endif
-#if FROM == 4
+#if FROM == 4 && TO != 3      /* the shrink to N48 uses the counting (rank) form of the N256 invariant instead: rk_define() */
   __CPROVER_assume(nv_wf_256_full(&VS));
 #endif
   return o;
@@ -71,12 +81,13 @@ static void frame_(uint8_t *d, uint8_t *sp) {
   __CPROVER_assert(N_KEY(sp, 3, Q) == VS.keys[Q] && (VS.keys[Q] == N48_EMPTY || N_SLOT(sp, 3, VS.keys[Q] < 48 ? VS.keys[Q] : 0) == VS.slots[VS.keys[Q] < 48 ? VS.keys[Q] : 0]) && N_COUNT(sp, 3) == VS.count, "frame: the loop does not modify the source (witness key byte, count)");
   __CPROVER_assert(N_COUNT(d, 4) == G_dcount0 && N_PREFIX(d, 4) == G_dprefix0, "frame: the loop does not modify the destination's header");
 }
-static _Bool inv1_(uint8_t *d, unsigned i, unsigned c) { return i <= 255 && c == RK[i] && c < 48 && (Q >= i || DCH(d, Q) == nv_child(&VS, Q)); }
+static _Bool inv1_(uint8_t *d, unsigned i, unsigned c) { return i <= 255 && c == RK[i] && c < 48 && (Q >= i || DCH(d, Q) == nv_child(&VS, Q)) && (IN_b >= i || DCH(d, IN_b) == nv_child(&VS, IN_b)); }   /* witnesses: Q and the new key byte */
 static void g1_base(void *this_p, void *src_p, void *i_p, void *c_p) {
   G_dst = this_p; G_src = src_p; G_dcount0 = N_COUNT(G_dst, 4); G_dprefix0 = N_PREFIX(G_dst, 4);
   __CPROVER_assert(inv1_(G_dst, *(uint32_t *)i_p, *(uint32_t *)c_p), "loop 1 invariant holds on entry (i = 0, nothing copied)");
 }
-static void g1_head(void *this_p, void *src_p, void *i_p, void *c_p) { havoc_dst(this_p); __CPROVER_assume(inv1_(this_p, *(uint32_t *)i_p, *(uint32_t *)c_p)); G_ib = *(uint32_t *)i_p; }
+static void g1_head(void *this_p, void *src_p, void *i_p, void *c_p) { havoc_dst(this_p); __CPROVER_assume(inv1_(this_p, *(uint32_t *)i_p, *(uint32_t *)c_p)); G_ib = *(uint32_t *)i_p;
+  __CPROVER_assume(G_ib > 255 || nv_wf_at(&VS, (uint8_t)G_ib)); }      /* the source's invariant (for all key bytes) instantiated at the loop's current key byte */
 static void g1_back(void *this_p, void *src_p, void *i_p, void *c_p) {
   frame_(this_p, src_p);
   __CPROVER_assert(*(uint32_t *)i_p == G_ib + 1 && inv1_(this_p, *(uint32_t *)i_p, *(uint32_t *)c_p), "loop 1 invariant preserved: copied == rank(i), fewer than 48 so far (so i stays below 256), destination[Q] == source view at Q for Q < i");
@@ -84,7 +95,8 @@ static void g1_back(void *this_p, void *src_p, void *i_p, void *c_p) {
 }
 /* loop 2 (fill the rest with null): i_b = the index at which the 48th child was copied */
 static unsigned G_ib2;
-static _Bool inv2_(uint8_t *d, unsigned i) { return i > G_ib2 && i <= 256 && G_ib2 <= 255 && RK[G_ib2 + 1] == 48 && (Q > G_ib2 || DCH(d, Q) == nv_child(&VS, Q)) && (Q <= G_ib2 || Q >= i || DCH(d, Q) == 0); }
+static _Bool inv2_(uint8_t *d, unsigned i) { return i > G_ib2 && i <= 256 && G_ib2 <= 255 && RK[G_ib2 + 1] == 48 && (Q > G_ib2 || DCH(d, Q) == nv_child(&VS, Q)) && (Q <= G_ib2 || Q >= i || DCH(d, Q) == 0)
+    && (IN_b > G_ib2 || DCH(d, IN_b) == nv_child(&VS, IN_b)) && (IN_b <= G_ib2 || IN_b >= i || DCH(d, IN_b) == 0); }
 static void g2_base(void *this_p, void *src_p, void *i_p) {
   frame_(this_p, src_p);
   G_ib2 = *(uint32_t *)i_p - 1;
@@ -96,6 +108,77 @@ static void g2_back(void *this_p, void *src_p, void *i_p) {
   frame_(this_p, src_p);
   __CPROVER_assert(*(uint32_t *)i_p == G_i2 + 1 && inv2_(this_p, *(uint32_t *)i_p), "loop 2 invariant preserved: the slots after the 48th copied child are null up to i");
   VERIF_CANARY("loop 2 continues"); __CPROVER_assume(0);
+}
+#endif
+
+#if FROM == 3 && TO == 2
+/* N48 -> N16 (shrink): copied(b) = the source maps key byte b and b is not the deleted key byte; RK total = 16 = min_size - 1.
+ * The destination has only 16 positions, so the position part of the invariant is written out for all of them (no witness needed):
+ *   position j < next_child holds the key byte of rank j (a copied byte below i) and that byte's child. */
+static _Bool copied_(unsigned b) { return VS.keys[b] != N48_EMPTY && b != IN_b; }
+static void rk_define(void) { for (unsigned b = 0; b <= 256; b++) RK[b] = nondet_u8(); __CPROVER_assume(RK[0] == 0); for (unsigned b = 0; b < 256; b++) __CPROVER_assume(RK[b + 1] == RK[b] + (copied_(b) ? 1 : 0)); __CPROVER_assume(RK[256] == 16); }
+static uint8_t *G_dst, *G_src; static unsigned G_i0; static uint8_t G_dcount0; static uint64_t G_dprefix0;
+#define DK(d, j) ((d)[n_off_keys(2) + (unsigned)(j)])
+#define DC(d, j) (*(uint64_t *)((d) + n_off_children(2) + 8u * (unsigned)(j)))
+static void havoc_dst(uint8_t *d) { for (unsigned j = 0; j < 16; j++) { DK(d, j) = nondet_u8(); DC(d, j) = nondet_u64(); } }
+static uint8_t slot_of(unsigned b) { uint8_t ix = VS.keys[b]; return ix < 48 ? ix : 0; }
+/* instances of the source's invariant (for all key bytes b: a mapped byte designates a non-null slot below 48; distinct mapped bytes use distinct slots) at b */
+static _Bool src_inst(unsigned b) { return nv_wf_at(&VS, (uint8_t)b) && (b == IN_b || VS.keys[b] == N48_EMPTY || VS.keys[b] != VS.keys[IN_b]); }
+static void frame_(uint8_t *d, uint8_t *sp) {
+  __CPROVER_assert(d == G_dst && sp == G_src, "the loop works on this destination and this source");
+  __CPROVER_assert(N_KEY(sp, 3, Q) == (Q == IN_b ? N48_EMPTY : VS.keys[Q]) && (!copied_(Q) || N_SLOT(sp, 3, slot_of(Q)) == VS.slots[slot_of(Q)]) && N_COUNT(sp, 3) == VS.count, "frame: the loop does not modify the source (witness key byte, count)");
+  __CPROVER_assert(N_COUNT(d, 2) == G_dcount0 && N_PREFIX(d, 2) == G_dprefix0, "frame: the loop does not modify the destination's header");
+}
+static _Bool inv_(uint8_t *d, unsigned i, unsigned n) {
+  if (!(i <= 255 && n == RK[i] && n < 16)) return 0;
+  for (unsigned j = 0; j < 16; j++) if (j < n) { unsigned kb = DK(d, j); if (!(kb < i && copied_(kb) && RK[kb] == j && DC(d, j) == VS.slots[slot_of(kb)])) return 0; }
+  if (Q < i && copied_(Q) && DK(d, RK[Q] < 16 ? RK[Q] : 0) != Q) return 0;
+  return 1;
+}
+static void t1_base(void *this_p, void *src_p, void *i_p, void *n_p) {
+  G_dst = this_p; G_src = src_p; G_dcount0 = N_COUNT(G_dst, 2); G_dprefix0 = N_PREFIX(G_dst, 2);
+  __CPROVER_assert(inv_(G_dst, *(uint32_t *)i_p, *(uint32_t *)n_p), "loop invariant holds on entry (i = 0, nothing copied)");
+}
+static void t1_head(void *this_p, void *src_p, void *i_p, void *n_p) {
+  havoc_dst(this_p); __CPROVER_assume(inv_(this_p, *(uint32_t *)i_p, *(uint32_t *)n_p)); G_i0 = *(uint32_t *)i_p;
+  __CPROVER_assume(src_inst(G_i0));                                                              /* the source's invariant at the loop's current key byte */
+  for (unsigned j = 0; j < 16; j++) __CPROVER_assume(src_inst(DK((uint8_t *)this_p, j)));        /* ... and at the key bytes already placed */
+}
+static void t1_back(void *this_p, void *src_p, void *i_p, void *n_p) {
+  frame_(this_p, src_p);
+  __CPROVER_assert(*(uint32_t *)i_p == G_i0 + 1 && inv_(this_p, *(uint32_t *)i_p, *(uint32_t *)n_p), "loop invariant preserved: next_child == rank(i) < 16, position j holds the copied key byte of rank j and its child, the witness byte sits at its rank");
+  VERIF_CANARY("loop continues"); __CPROVER_assume(0);
+}
+#endif
+
+#if FROM == 4 && TO == 3
+/* N256 -> N48 (shrink): copied(b) = the source has a child for b and b is not the deleted key byte; RK total = 48 = min_size - 1 */
+static _Bool copied_(unsigned b) { return VS.slots[b] != 0 && b != IN_b; }
+static void rk_define(void) { for (unsigned b = 0; b <= 256; b++) RK[b] = nondet_u8(); __CPROVER_assume(RK[0] == 0); for (unsigned b = 0; b < 256; b++) __CPROVER_assume(RK[b + 1] == RK[b] + (copied_(b) ? 1 : 0)); __CPROVER_assume(RK[256] == 48); }
+static uint8_t *G_dst, *G_src; static unsigned G_i0; static uint8_t G_dcount0; static uint64_t G_dprefix0;
+#define DCI(d, b) ((d)[n_off_keys(3) + (unsigned)(b)])
+#define DPA(d, j) (*(uint64_t *)((d) + n_off_children(3) + 8u * (unsigned)(j)))
+static void havoc_dst(uint8_t *d) { for (unsigned b = 0; b < 256; b++) DCI(d, b) = nondet_u8(); for (unsigned j = 0; j < 48; j++) DPA(d, j) = nondet_u64(); }
+static void frame_(uint8_t *d, uint8_t *sp) {
+  __CPROVER_assert(d == G_dst && sp == G_src, "the loop works on this destination and this source");
+  __CPROVER_assert(N_SLOT(sp, 4, Q) == (Q == IN_b ? 0 : VS.slots[Q]) && N_COUNT(sp, 4) == VS.count, "frame: the loop does not modify the source (witness key byte, count)");
+  __CPROVER_assert(N_COUNT(d, 3) == G_dcount0 && N_PREFIX(d, 3) == G_dprefix0, "frame: the loop does not modify the destination's header");
+}
+static _Bool inv_(uint8_t *d, unsigned i, unsigned n) {
+  if (!(i <= 256 && n == RK[i < 256 ? i : 256] && n < 48)) return 0;
+  if (DCI(d, IN_b) != N48_EMPTY) return 0;                       /* second witness: the deleted key byte is never indexed */
+  if (Q < i && copied_(Q)) return DCI(d, Q) == RK[Q] && DPA(d, RK[Q] < 48 ? RK[Q] : 0) == VS.slots[Q];
+  return DCI(d, Q) == N48_EMPTY;
+}
+static void s1_base(void *this_p, void *src_p, void *i_p, void *n_p) {
+  G_dst = this_p; G_src = src_p; G_dcount0 = N_COUNT(G_dst, 3); G_dprefix0 = N_PREFIX(G_dst, 3);
+  __CPROVER_assert(inv_(G_dst, *(uint32_t *)i_p, *(uint8_t *)n_p), "loop invariant holds on entry (i = 0, nothing copied, every index empty)");
+}
+static void s1_head(void *this_p, void *src_p, void *i_p, void *n_p) { havoc_dst(this_p); __CPROVER_assume(inv_(this_p, *(uint32_t *)i_p, *(uint8_t *)n_p)); G_i0 = *(uint32_t *)i_p; }
+static void s1_back(void *this_p, void *src_p, void *i_p, void *n_p) {
+  frame_(this_p, src_p);
+  __CPROVER_assert(*(uint32_t *)i_p == G_i0 + 1 && inv_(this_p, *(uint32_t *)i_p, *(uint8_t *)n_p), "loop invariant preserved: next_child == rank(i) < 48, index[Q] == rank(Q) and slot[rank(Q)] == source child for copied Q < i, index[Q] empty otherwise");
+  VERIF_CANARY("loop continues"); __CPROVER_assume(0);
 }
 #endif
 #if TO == FROM + 1
@@ -125,6 +208,9 @@ void harness(void) {
 #endif
   uint8_t *leaf = malloc(NLAY(POL, LEAF, DATA) + 8 + 4); __CPROVER_assume(leaf != 0);
   *(uint64_t *)(src + nv_hslot_off(&VS, IN_h)) = (uint64_t)(uintptr_t)leaf; nv_load(&VS, src, FROM);
+#if (FROM == 4 && TO == 3) || (FROM == 3 && TO == 2)
+  rk_define();
+#endif
   DST_T *dt = malloc(sizeof(DST_T)); __CPROVER_assume(dt != 0); uint8_t *dst = (uint8_t *)dt; uint8_t db[8];
   CTOR((CTOR_a0)dst, (CTOR_a1)db, (CTOR_a2)src, IN_h);
   post_common(src, dst);
